@@ -6,10 +6,12 @@ LEVEL_TEXT = ('exploration: mapping == effective @namespace rules (last declarat
               'prefixes rejected, a detached rule (also inside a detached @media rule) carries a declaration for every URI it uses and its own serialisation re-resolves to the same pairs '
               '- evaluated as a run-time contract on the real objects after every operation of every sequence of namespace operations up to length 3 (quick) / 4 '
               '(thorough), on two sheets with rules attached, detached and moved between them')
-LEVEL_NOTE = ('bounded, not a proof: three prefixes x two URIs, ten selector shapes (prefix|, *|, |, default, universal, attribute, descendant), five seed states, plus seed sheets whose selectors were written through each of five DOM routes (rule.selectorText, selectorList.selectorText, '
-              'Selector.selectorText, appendSelector, rule.cssText; sequences <= 2 quick / <= 3 thorough); sequences are merged '
+LEVEL_NOTE = ('bounded, not a proof: three prefixes x two URIs, ten selector shapes (prefix|, *|, |, default, universal, attribute, descendant), five seed states, plus seed sheets whose selectors were written through each of six DOM routes (rule.selectorText, selectorList.selectorText, '
+              'Selector.selectorText, appendSelector, item assignment selectorList[i] = text, rule.cssText) with the text alone or as the documented pair (text, {prefix: URI}) carrying a dictionary that '
+              'contradicts the sheet (sequences <= 2 quick / <= 3 thorough), plus a pool in which every such write (7 routes x 2 argument forms x 4 selectors) is itself an operation next to the mapping edits '
+              '(sequences <= 2 quick / <= 3 thorough; a Selector object as argument is outside the bound); sequences are merged '
               'when they reach the same observable state; expected pairs come from the construction of the selector text and the effective @namespace rules at the moment of writing; '
-              'random walks (thorough only) are samples. Eleven recorded findings are excluded by sharp classes (known/C15.json)')
+              'random walks (thorough only) are samples. Twelve recorded findings are excluded by sharp classes (known/C15.json)')
 TECHNIQUE = ('bounded run-time contracts over exhaustively enumerated histories of namespace operations on the real CSSStyleSheet.namespaces / CSSNamespaceRule / Selector objects '
              '(breadth-first over distinct observable states, replay on fresh objects), seeded random walks of length 200 in the thorough tier')
 DESIGN_REF = 'DESIGN.md section 3, C15; Appendix C operation pools'
